@@ -40,17 +40,17 @@ def pools(n):
     # every call may create at most one object of each kind
     return ["VK_NSHM=%d" % n, "VK_NSEM=%d" % n, "VK_NSEMH=%d" % (n + 1), "VK_NFD=%d" % (n + 1), "VK_NMAP=%d" % n]
 def hist(n, timeout=1500):
-    return Q("hist%d" % n, "harness/C07_hist.c", units=SHM_UNITS, models=KM, defs=["NOPS=%d" % n] + pools(n), includes=REDIR,
+    return Q("hist%d" % n, "harness/C07_hist.c", units=SHM_UNITS, models=KM, hdefs=["NOPS=%d" % n] + pools(n), includes=REDIR,
              unwindset=dict(UW, **{"harness.0": n + 1}), timeout=timeout, funcs=FUNCS,
              bounds={"calls": n, "processes": 2, "sizes": "0..12 bytes = 0..3 model pages", "names": 1})
 def race(at, demo):
     return Q("race_first_open_at%d" % at + ("_kfdemo" if demo else ""), "harness/C07_race.c", units=SHM_UNITS, models=KM,
-             defs=pools(4) + ["PREEMPT_AT=%d" % at] + (["KF_DEMO_RACE"] if demo else []), includes=REDIR, unwindset=UW, timeout=900, object_bits=12,
+             hdefs=pools(4) + ["PREEMPT_AT=%d" % at] + (["KF_DEMO_RACE"] if demo else []), includes=REDIR, unwindset=UW, timeout=900, object_bits=12,
              funcs=FUNCS, kf="C07_first_open_race" if demo else None,
              bounds={"preemption_depth": 1, "preempted_before_syscall": at, "sizes": "1..12 each"})
 def crash(pcalls, demo=False):
     return Q("crash_recovery" + ("_kfdemo" if demo else "_p%d" % pcalls), "harness/C07_crash.c", units=SHM_UNITS, models=KM,
-             defs=pools(pcalls + 3) + ["PCALLS=%d" % pcalls] + (["KF_DEMO_ZERO"] if demo else []), includes=REDIR,
+             hdefs=pools(pcalls + 3) + ["PCALLS=%d" % pcalls] + (["KF_DEMO_ZERO"] if demo else []), includes=REDIR,
              unwindset=dict(UW, **{"harness.0": pcalls + 1}), timeout=1500, funcs=FUNCS, kf="C07_crash_zero_size" if demo else None,
              bounds={"calls_of_killed_process": pcalls, "crash_point": "before any of its <=16 system calls, or idle", "segment_preexists": "symbolic"})
 def is_open(fid):
